@@ -20,6 +20,7 @@ void _dbus_verif_set_second_alloc_failure(int gap);
 #include "bus/services.h"
 #include <dbus/dbus-list.h>
 void _bus_verif_set_unique_name_counter(int major, int minor);
+void _bus_verif_set_stamp(int value);   // hook H7
 extern void (*_bus_verif_probe)(const char *what, DBusConnection *connection, DBusMessage *message);
 extern void (*_bus_verif_probe_reply_expired)(DBusConnection *will_get_reply, DBusConnection *will_send_reply, dbus_uint32_t reply_serial);
 }
@@ -175,13 +176,14 @@ World::~World() {
   K->reset(1);
 }
 
-void World::start_bus(const std::string &config_xml, int uniq_major, int uniq_minor) {
+void World::start_bus(const std::string &config_xml, int uniq_major, int uniq_minor, int stamp_start) {
   std::string path = scratch + "/bus.conf";
   FILE *f = fopen(path.c_str(), "w");
   if (!f) harness_error("cannot write %s", path.c_str());
   fwrite(config_xml.data(), 1, config_xml.size(), f);
   fclose(f);
   _bus_verif_set_unique_name_counter(uniq_major, uniq_minor);
+  _bus_verif_set_stamp(stamp_start);   // as if the bus had routed that many messages already
   base_blocks = _dbus_get_malloc_blocks_outstanding();
   DBusString cfg;
   _dbus_string_init_const(&cfg, path.c_str());
